@@ -1741,13 +1741,17 @@ __archive_read_filter_seek(struct archive_read_filter *filter, int64_t offset,
 			    client->dataset[cursor].begin_position)
 				break;
 			offset += client->dataset[cursor].total_size;
-			if (cursor == 0)
-				break;
+			if (cursor == 0) {
+				/* The target lies before the first byte. */
+				return ARCHIVE_FATAL;
+			}
 			cursor--;
 			r = client->dataset[cursor].begin_position +
 				client->dataset[cursor].total_size;
 		}
 		offset = (r + offset) - client->dataset[cursor].begin_position;
+		if (offset > client->dataset[cursor].total_size)
+			return ARCHIVE_FATAL;	/* Beyond the last byte. */
 		if ((r = client_switch_proxy(filter, cursor)) != ARCHIVE_OK)
 			return r;
 		r = client_seek_proxy(filter, offset, SEEK_SET);
